@@ -245,9 +245,13 @@ pub fn step(ex: &mut Exec, st: &mut L1State, op: &str, toks: &[&str]) -> Option<
                     report(ex, pos as u64 + 1, "trace-shape-post-commit-read", format!("storage operations after the commit write: {:?}", &trace[pos + 1..]));
                 }
             }
-            for k in 0..k_total {
+            // with parallel insertion every fault index is tried twice: as fast as the in-memory database goes, and with a read
+            // latency of 200 us, which keeps the sub-tasks of the insertion at work while a sibling fails
+            let delays: &[u64] = if par.insertion == akd::append_only_zks::AzksParallelismOption::Disabled { &[0] } else { &[0, 200] };
+            for (k, delay) in (0..k_total).flat_map(|k| delays.iter().map(move |d| (k, *d))) {
                 let outcome = with_cfg!(cfg.as_str(), TC => {
                     let db = rt.block_on(FaultDb::from_records(&snapshot));
+                    db.read_delay_us.store(delay, Ordering::SeqCst);
                     let mgr = make_mgr(&db, &cache);
                     let dir = rt.block_on(Directory::<TC, _, _>::new(mgr.clone(), HardCodedAkdVRF {}, par)).ok()?;
                     // warm the instance the way a serving directory is: one epoch-hash read
@@ -257,7 +261,8 @@ pub fn step(ex: &mut Exec, st: &mut L1State, op: &str, toks: &[&str]) -> Option<
                     let r = rt.block_on(dir.publish(ups.clone()));
                     db.fail_at.store(-1, Ordering::SeqCst);
                     // let detached tasks (parallel insertion) run to completion
-                    rt.block_on(async { tokio::time::sleep(Duration::from_millis(15)).await });
+                    rt.block_on(async { tokio::time::sleep(Duration::from_millis(if delay > 0 { 40 } else { 15 })).await });
+                    db.read_delay_us.store(0, Ordering::SeqCst);
                     let mut v: Vec<(String, String)> = vec![];
                     match r {
                         // (with an expiring cache the number of storage operations of a run depends on timing: when operation k
